@@ -546,7 +546,52 @@ func inject(t *rapid.T, s *codecx.Schema, st site) string {
 		*st.slot = raw(pick("wt", "5", `"x"`, "[]", "true"))
 		return "wrong-type:any"
 	case strings.HasPrefix(tag, "object:"):
-		switch pick("f", "type", "unknown-key") {
+		choice := pick("f", "type", "unknown-key", "plain-oneof")
+		if choice == "plain-oneof" {
+			// two members of one proto oneof whose members are plain properties of
+			// the object: only one can be stored, so the document must be refused
+			if md := s.Find(strings.TrimPrefix(tag, "object:")); md != nil {
+				flat := map[string]bool{}
+				for _, p := range j5ref.Props(md) {
+					flat[p.Name] = true
+				}
+				present := map[string]bool{}
+				for _, m := range v.Members {
+					if m.Val != nil && m.Val.Kind != jx.Null {
+						present[m.Key] = true
+					}
+				}
+				for i := 0; i < md.Oneofs().Len(); i++ {
+					od := md.Oneofs().Get(i)
+					if od.IsSynthetic() {
+						continue
+					}
+					var have, add protoreflect.FieldDescriptor
+					for k := 0; k < od.Fields().Len(); k++ {
+						fd := od.Fields().Get(k)
+						if !flat[fd.JSONName()] {
+							have, add = nil, nil
+							break
+						}
+						if present[fd.JSONName()] {
+							have = fd
+						} else if add == nil && simpleValid(fd) != nil {
+							add = fd
+						}
+					}
+					if have != nil && add != nil {
+						v.Members = append(v.Members, jx.Member{Key: add.JSONName(), Val: simpleValid(add)})
+						if rapid.Bool().Draw(t, "plainfirst") {
+							last := len(v.Members) - 1
+							v.Members[0], v.Members[last] = v.Members[last], v.Members[0]
+						}
+						return "two-members-of-plain-oneof"
+					}
+				}
+			}
+			choice = "unknown-key"
+		}
+		switch choice {
 		case "type":
 			if st.depth == 0 {
 				*st.slot = raw(pick("wt", "5", `"x"`, "[]", "true", "null"))
@@ -699,6 +744,36 @@ func runSpelling(t *testing.T, lane string) {
 
 // refine re-tries a failing multi-variation document to find which single
 // variation is responsible, so the finding key names it.
+// simpleValid returns a value every decoder accepts for a singular scalar field of
+// the kind, nil for kinds this helper does not cover.
+func simpleValid(fd protoreflect.FieldDescriptor) *jx.Value {
+	if fd.IsList() || fd.IsMap() {
+		return nil
+	}
+	switch fd.Kind() {
+	case protoreflect.StringKind:
+		if fd.Options() != nil && fd.Options().ProtoReflect().IsValid() && len(fd.Options().ProtoReflect().GetUnknown()) == 0 && fieldHasOptions(fd) {
+			return nil // annotated strings (keys, dates-as-strings) have formats of their own
+		}
+		return jx.S("x")
+	case protoreflect.BoolKind:
+		return raw("true")
+	case protoreflect.Int32Kind, protoreflect.Sint32Kind, protoreflect.Uint32Kind:
+		return raw("1")
+	case protoreflect.Int64Kind, protoreflect.Sint64Kind, protoreflect.Uint64Kind:
+		return jx.S("1")
+	case protoreflect.DoubleKind, protoreflect.FloatKind:
+		return raw("1.5")
+	}
+	return nil
+}
+
+func fieldHasOptions(fd protoreflect.FieldDescriptor) bool {
+	n := 0
+	fd.Options().ProtoReflect().Range(func(protoreflect.FieldDescriptor, protoreflect.Value) bool { n++; return true })
+	return n > 0
+}
+
 func refine(s *codecx.Schema, msg protoreflect.Message, tree *jx.Value, c docCase, fails []vf.Failure) []vf.Failure {
 	return fails
 }
